@@ -76,14 +76,38 @@ inductive Input where
   | datetime (dt : DateTime)  -- exactly `datetime.datetime`
   | time (H M S us : Nat)     -- a `datetime.time` (None for the parser; the TIME cast keeps it)
   | strSub (s : List Char)    -- an instance of a proper subclass of `str` (None for the parser: `type(value) != str`)
+  | num (ty : String) (n : Int) -- an instance of any other numeric class `ty` (`bool`, `numpy.int32`, `decimal.Decimal`, a subclass of
+                              -- `int` / `float`, …) for which `int(value)` returns `n`; not text, not a date, no `to_pydatetime`
   | other                     -- any other object without `to_pydatetime`
   deriving Repr
 
 def decodeUtf8 (b : List UInt8) : Option (List Char) :=
   (String.fromUTF8? (ByteArray.mk b.toArray)).map String.toList
 
+/-- The classes a class inherits from (its `__mro__` without `object`), for the numeric classes the correspondence feeds:
+what `isinstance` looks at, as opposed to the identity of `type(value)`.  `bool` is an `int`, `numpy.float64` is a `float`,
+**`numpy.int64` is not an `int`** (and no other numpy integer or `numpy.float32` / `float16` inherits from a Python number). -/
+def mro (ty : String) : List String :=
+  if ty = "bool" then ["bool", "int"]
+  else if ty = "numpy.float64" then ["numpy.float64", "numpy.floating", "numpy.inexact", "numpy.number", "numpy.generic", "float"]
+  else if ty = "int subclass" then ["int subclass", "int"]
+  else if ty = "float subclass" then ["float subclass", "float"]
+  else if ty = "numpy.float32" ∨ ty = "numpy.float16" then [ty, "numpy.floating", "numpy.inexact", "numpy.number", "numpy.generic"]
+  else if ty = "numpy.int64" ∨ ty = "numpy.int32" ∨ ty = "numpy.int16" ∨ ty = "numpy.int8" then
+    [ty, "numpy.signedinteger", "numpy.integer", "numpy.number", "numpy.generic"]
+  else if ty = "numpy.uint64" ∨ ty = "numpy.uint32" ∨ ty = "numpy.uint16" ∨ ty = "numpy.uint8" then
+    [ty, "numpy.unsignedinteger", "numpy.integer", "numpy.number", "numpy.generic"]
+  else if ty = "numpy.bool" ∨ ty = "numpy.bool_" then [ty, "numpy.generic"]
+  else [ty]
+
+/-- **The test in front of the Unix-seconds branch**, with the class table and the way it is consulted read from the source on
+this run: `input_type in (…)` admits exactly the listed classes (`Gen.Iso.epochBySubclass = false`); `isinstance(value, (…))`
+admits their subclasses too. -/
+def epochAdmits (ty : String) : Bool :=
+  if Gen.Iso.epochBySubclass then (mro ty).any Gen.Iso.epochTypes.contains else Gen.Iso.epochTypes.contains ty
+
 def epoch (tyName : String) (n : Except Exc Int) : Except Exc (Option DateTime) :=
-  if Gen.Iso.epochTypes.contains tyName then
+  if epochAdmits tyName then
     n.bind fun k => (fromTimestamp k).bind fun dt => .ok (some dt)
   else .ok none
 
@@ -107,6 +131,7 @@ def body : Input → Except Exc (Option DateTime)
   | .datetime dt => .ok (some { dt with micro := 0 })
   | .int n => epoch "int" (.ok n)
   | .npInt n => epoch "numpy.int64" (.ok n)
+  | .num ty n => epoch ty (.ok n)
   | .float b => epoch "float" (intOfFloat b)
   | .npFloat b => epoch "numpy.float64" (intOfFloat b)
   | .bytes b =>
